@@ -3,6 +3,8 @@ CONSTANTS
   Classes <- Classes4
   Outs <- OutsPolicySmall
   Durs = {1}
+  CDurs <- ZeroDur
+  EDurs <- ZeroDur
   Rets <- RetsOne
   Advs <- AdvsExact
   Decs <- DecsAll
